@@ -516,11 +516,10 @@ impl Drop for Twin {
 struct Env {
     scratch: PathBuf,
     seq: u64,
-    plant: bool,
 }
 impl Env {
-    fn new(scratch: &Path, plant: bool) -> Env {
-        Env { scratch: scratch.to_path_buf(), seq: 0, plant }
+    fn new(scratch: &Path) -> Env {
+        Env { scratch: scratch.to_path_buf(), seq: 0 }
     }
     fn setup_stmts(v: &Variant, twin: char, p: Preload) -> Vec<String> {
         let mut s = vec![if twin == 'A' { v.table_a.to_string() } else { v.table_b.to_string() }, U_DDL.to_string(), U_ROWS.to_string()];
@@ -674,10 +673,6 @@ fn run_history_inner(env: &mut Env, g: &mut Group, h: &[Op], skip: &[&str]) -> O
             return out;
         }
     }
-    if env.plant && h.len() >= 2 && h[h.len() - 1] == Del2 && h[h.len() - 2] == InsM {
-        // planted difference (self-test of the harness, see final report): twin A silently loses a row
-        let _ = a.exec("DELETE FROM t WHERE id = 5");
-    }
     // ---- plans -----------------------------------------------------------
     g.runs += 1;
     let revalidate = g.plans.is_some() && g.runs % 64 == 0;
@@ -749,6 +744,8 @@ struct Pass {
     skip_variants: &'static [&'static str],
     why: &'static str,
 }
+/// depth marker: the pass does not run on that preload in that tier (depth 0 = only the empty history)
+const SKIP: usize = 99;
 const TX: [Op; 5] = [Begin, Commit, Rollback, Savept, RollTo];
 const PASSES: &[Pass] = &[
     Pass {
@@ -759,11 +756,19 @@ const PASSES: &[Pass] = &[
         skip_variants: &[],
         why: "every probe including `col = v AND col > v` (KF-C10-01 fires on every non-empty table, so that probe is evaluated only here); inserts only",
     },
-    Pass { name: "full", ops: &ALL_OPS, depth: [(2, 4), (2, 3), (1, 2)], skip_probes: &["eq-and-gt-same-col"], skip_variants: &[], why: "full alphabet; probe `col = v AND col > v` removed (KF-C10-01)" },
+    Pass { name: "full", ops: &ALL_OPS, depth: [(2, 3), (2, 3), (1, 2)], skip_probes: &["eq-and-gt-same-col"], skip_variants: &[], why: "full alphabet; probe `col = v AND col > v` removed (KF-C10-01)" },
+    Pass {
+        name: "full-deep",
+        ops: &ALL_OPS,
+        depth: [(SKIP, 4), (SKIP, SKIP), (SKIP, SKIP)],
+        skip_probes: &["eq-and-gt-same-col"],
+        skip_variants: &["sec_nopk", "comp", "partial", "text", "late", "droplate"],
+        why: "full alphabet one level deeper (thorough tier only) on one variant per index family: PRIMARY KEY, UNIQUE, secondary",
+    },
     Pass {
         name: "full-droplate",
         ops: &ALL_OPS,
-        depth: [(3, 4), (2, 4), (0, 0)],
+        depth: [(3, 4), (2, 3), (SKIP, SKIP)],
         skip_probes: &["eq-and-gt-same-col"],
         skip_variants: &["pk", "uniq", "sec", "sec_nopk", "comp", "partial", "text", "late"],
         why: "full alphabet one level deeper on the variant whose index is dropped before probing (no index defect can prune it)",
@@ -771,10 +776,18 @@ const PASSES: &[Pass] = &[
     Pass {
         name: "ins-tx",
         ops: &[Ins1, Ins2, InsM, TX[0], TX[1], TX[2], TX[3], TX[4]],
-        depth: [(4, 6), (4, 5), (2, 3)],
+        depth: [(4, 5), (4, 5), (2, 3)],
         skip_probes: &["eq-and-gt-same-col"],
         skip_variants: &[],
         why: "no UPDATE / DELETE (KF-C10-03..08 break index maintenance for them) and no NULL (KF-C10-02): inserts in any key order under every transaction bracket",
+    },
+    Pass {
+        name: "ins-tx-deep",
+        ops: &[Ins1, Ins2, InsM, TX[0], TX[1], TX[2], TX[3], TX[4]],
+        depth: [(SKIP, 6), (SKIP, SKIP), (SKIP, SKIP)],
+        skip_probes: &["eq-and-gt-same-col"],
+        skip_variants: &["uniq", "sec_nopk", "comp", "partial", "late", "droplate"],
+        why: "ins-tx one level deeper (thorough tier only) on the PRIMARY KEY, secondary and TEXT variants",
     },
     Pass {
         name: "ins-null",
@@ -1015,21 +1028,32 @@ impl C10 {
     }
 
     fn explore(&self, ctx: &Ctx, rep: &mut Reporter) {
-        let mut ex = Explorer { ctx, env: Env::new(&ctx.scratch, ctx.opt("plant").is_some()), memo: HashMap::new(), groups: HashMap::new() };
+        let mut ex = Explorer { ctx, env: Env::new(&ctx.scratch), memo: HashMap::new(), groups: HashMap::new() };
         let only_variant = ctx.opt("variant").map(|s| s.to_string());
         let only_pass = ctx.opt("pass").map(|s| s.to_string());
         let only_preload = ctx.opt("preload").map(|s| s.to_string());
         let depth_override: Option<usize> = ctx.opt("depth").and_then(|s| s.parse().ok());
         // development aid: `--tier thorough --opt sizes=quick` = quick-tier bounds under the thorough wall cap
         let size_tier = if ctx.opt("sizes") == Some("quick") { vcore::Tier::Quick } else { ctx.tier };
-        let mut unit = 0u64; // ownership counter over (pass, variant, preload, 2-op prefix)
+        let mut unit = 0u64; // ownership counter over (pass, variant, preload, first operation)
         let mut since_check = 0u32;
         for pass in PASSES {
             if only_pass.as_deref().map(|x| x != pass.name).unwrap_or(false) {
                 continue;
             }
+            let dep = |i: usize| -> Value {
+                let d = size_tier.pick(pass.depth[i].0, pass.depth[i].1);
+                if d == SKIP {
+                    json!("not run in this tier")
+                } else {
+                    json!(d)
+                }
+            };
+            if (0..3).all(|i| size_tier.pick(pass.depth[i].0, pass.depth[i].1) == SKIP) {
+                continue;
+            }
             rep.bound(&format!("pass:{}", pass.name), json!({"ops": pass.ops.iter().map(|o| o.name()).collect::<Vec<_>>(), "why": pass.why,
-                "depth_none": ctx.tier.pick(pass.depth[0].0, pass.depth[0].1), "depth_p12": ctx.tier.pick(pass.depth[1].0, pass.depth[1].1), "depth_p650": ctx.tier.pick(pass.depth[2].0, pass.depth[2].1),
+                "max_history_length": {"preload_none": dep(0), "preload_p12": dep(1), "preload_p650": dep(2)},
                 "variants": VARIANTS.iter().filter(|v| !pass.skip_variants.contains(&v.name)).map(|v| v.name).collect::<Vec<_>>(), "probes_not_evaluated": pass.skip_probes}));
             for v in VARIANTS {
                 if only_variant.as_deref().map(|x| x != v.name).unwrap_or(false) || pass.skip_variants.contains(&v.name) {
@@ -1045,6 +1069,9 @@ impl C10 {
                         Preload::P650 => 2,
                     };
                     let depth = depth_override.unwrap_or(size_tier.pick(pass.depth[di].0, pass.depth[di].1));
+                    if depth == SKIP {
+                        continue; // this pass does not run on this preload in this tier
+                    }
                     let mut violating: HashSet<Vec<Op>> = HashSet::new();
                     let mut illegal: HashSet<Vec<Op>> = HashSet::new();
                     // the empty history (initial state = preload): one owner; it is not a prunable prefix
@@ -1082,7 +1109,6 @@ impl C10 {
                 }
             }
         }
-        let _ = ex.ctx;
         if ctx.opt("timing").is_some() {
             use std::sync::atomic::Ordering::Relaxed;
             let n = TIMES[4].load(Relaxed).max(1);
@@ -1175,7 +1201,7 @@ impl Check for C10 {
         let mut s = Spec::new(
             "C10",
             "model_checking",
-            "a case is one history (sequence of alphabet operations, all well-formed sequences up to the pass depth, shortest first) applied to a twin pair (index variant x preload); after it every probe of the variant's probe list runs on both twins and, when answered by an index operator, also in its index-defeating formulation on twin A. Distinct = distinct (variant, preload, history); non-trivial = non-empty history and at least one probe answered on twin A by SecondaryIndexScan / IndexScan / IndexNestedLoopJoin according to EXPLAIN.",
+            "a case is one history applied to a twin pair (twin A indexed per variant: pk, uniq, sec, sec_nopk, comp, partial, text, late = index created after the history, droplate = index dropped after it; twin B without index) from one of three preloads (none, 12 rows, 650 rows). Per pass (bounds[pass:*]: alphabet, depth per preload, variants) EVERY well-formed sequence of the pass alphabet up to the depth is run from fresh databases, shortest first, extensions of a violating history pruned. Alphabet: 3 single-row and 1 multi-row INSERT (non-monotonic keys, colliding values, NULL), UPDATE of the indexed column by key (to a value / to NULL), UPDATE all, DELETE by key / by indexed value, delete-then-reinsert, BEGIN, COMMIT, ROLLBACK, SAVEPOINT, ROLLBACK TO. After the history every probe of the variant's list (= < <= > >= BETWEEN IN, = AND other column, IS NULL, ORDER BY, inner and left join on the indexed column, LIKE prefix for TEXT, full scan; every value of the domain +-1) runs on both twins and, when EXPLAIN shows an index operator, also as its index-defeating formulation on twin A. Distinct = distinct (variant, preload, history); non-trivial = non-empty history with at least one probe answered on twin A by SecondaryIndexScan / IndexScan / IndexNestedLoopJoin.",
         );
         s.assumptions = &[
             "differential oracle only: twin B (same history, no index) and the `col + 0` / `col || ''` formulation on twin A; engine-wide semantic defects cancel and are not C10's subject",
@@ -1202,7 +1228,7 @@ impl Check for C10 {
         };
         let p = case["preload"].as_str().and_then(Preload::parse).unwrap_or(Preload::None);
         let h: Vec<Op> = case["history"].as_array().map(|a| a.iter().filter_map(|x| x.as_str().and_then(Op::parse)).collect()).unwrap_or_default();
-        let mut env = Env::new(&ctx.scratch, ctx.opt("plant").is_some());
+        let mut env = Env::new(&ctx.scratch);
         let mut g = Group::new(v, p);
         let pass = pass_by_name(case["pass"].as_str().unwrap_or("full"));
         let o = run_history(&mut env, &mut g, &h, pass.skip_probes);
@@ -1253,32 +1279,7 @@ fn debug_sql(script: &str) {
     let _ = std::fs::remove_dir_all(&base);
 }
 
-fn bench() {
-    vcore::quiet_panics();
-    let base = std::path::PathBuf::from(format!("/dev/shm/turdb_verif/c10bench_{}", std::process::id()));
-    let mut env = Env::new(&base, false);
-    for (vn, p) in [("sec", Preload::None), ("sec", Preload::P12), ("sec", Preload::P650), ("text", Preload::P650)] {
-        let v = variant(vn).unwrap();
-        let n = 20;
-        let t0 = std::time::Instant::now();
-        for _ in 0..n {
-            let t = env.fresh(v, 'A', p).unwrap();
-            drop(t);
-        }
-        println!("fresh({vn},A,{})+drop: {} us", p.name(), t0.elapsed().as_micros() / n);
-        let t = env.fresh(v, 'A', p).unwrap();
-        for e in std::fs::read_dir(t.dir.join("root")).into_iter().flatten().flatten() {
-            println!("   {:?} {} bytes", e.file_name(), e.metadata().map(|m| m.len()).unwrap_or(0));
-        }
-    }
-    let _ = std::fs::remove_dir_all(&base);
-}
-
 fn main() {
-    if std::env::var("C10_BENCH").is_ok() {
-        bench();
-        return;
-    }
     if let Ok(s) = std::env::var("C10_SQL") {
         debug_sql(&s);
         return;
